@@ -362,6 +362,9 @@ func CheckC17(o *Outcome) *vh.Finding {
 		if r.OK != wantOK || r.Failed != wantFailed {
 			return vh.Fail("reload:counter", "generation %d: a reload with the %s configuration changed slogagent_reloads_total by success=%v failure=%v (expected %v/%v)", r.Gen, r.Variant, r.OK, r.Failed, wantOK, wantFailed)
 		}
+		if len(r.Orphans) > 0 {
+			return vh.Fail("reload:queue-not-taken-over", "generation %d: right after a successful reload returned, the queue directories %v held chunk files but the new pipeline set has no pipeline for their key sets: the chunks saved by the old pipelines are not taken over (they wait for new traffic of the same key set or a restart)", r.Gen, r.Orphans)
+		}
 		if r.Variant == "valid" && !anyValid {
 			anyValid, firstValidEnd, firstValidGen = true, r.End, r.Gen
 		}
